@@ -723,7 +723,7 @@ def ref_keyword_task_run(self, res):
                 obls.append(core.Obligation("%s/F/transparent#%d" % (nm, n), "F", s.pc, z3.And(facts) if facts else z3.BoolVal(True),
                                             note="result == errors of the designated schema on the same instance, evaluated under the designated URL as scope, with nothing added to any path"))
             except seqmatch.Mismatch as e:
-                res["obligations"].append({"name": "%s/F/transparent#%d" % (nm, n), "kind": "F", "status": "failed", "solver": "seqmatch", "time_s": 0.0,
+                res["obligations"].append({"name": "%s/F/transparent#%d" % (nm, n), "kind": "F", "status": ("failed" if getattr(e, "definite", True) else "unknown"), "solver": "seqmatch", "time_s": 0.0,
                                            "note": "result structure differs: %s" % e, "reason": str(e)})
             obls.append(core.Obligation("%s/F/verdict#%d" % (nm, n), "F", s.pc, seq_empty(out) == core.Vp(url, designated(url), instance.t),
                                         note="empty(result) <=> the designated schema accepts the instance (definition of Vref)"))
